@@ -208,7 +208,9 @@ example : (["a.b", "c", "_id"] : List String).Nodup := by decide
 /-- **agg_exact.** The `$project` stage with a plain inclusion / exclusion specification returns
     exactly what the rule says, fields in document order; its domain holds scope limits only.
     (Before the repair of `aggdroparr` an exclusion dropped the scalar elements of a descended
-    array and the domain excluded those documents.) -/
+    array and the domain excluded those documents; before the repair recorded as C03
+    `projectidexcl` the stage refused `_id: 1` next to excluded fields and the domain excluded
+    those specifications — class `idinexclusion`, gone.) -/
 theorem agg_exact (p d : Val) (hD : aggInD p d = true) :
     ∃ s, project p d = some s ∧ aggProject [d] p = .ok [s] :=
   Proofs.C12.agg_exact p d (List.isEmpty_iff.mp hD)
@@ -222,6 +224,18 @@ example : okAre (aggProject
     [.doc [("_id", .int 1), ("l", .arr [.int 1, .doc [("x", .int 1), ("y", .int 2)]])]]
     (.doc [("l.x", .int 0)])) [.doc [("_id", .int 1), ("l", .arr [.int 1, .doc [("y", .int 2)]])]]
     = true := by
+  decide +kernel
+
+/-- the former witness of `projectidexcl`: `{a: 0, _id: 1}` is inside the domain, and the stage
+    keeps `_id` (in whatever position `_id` stands) -/
+example : aggInD (.doc [("a", .int 0), ("_id", .int 1)])
+      (.doc [("_id", .int 0), ("k", .int 1), ("a", .int 5)]) = true ∧
+    aggInD (.doc [("_id", .bool true), ("a", .int 0)])
+      (.doc [("_id", .int 0), ("k", .int 1), ("a", .int 5)]) = true ∧
+    okAre (aggProject [.doc [("_id", .int 0), ("k", .int 1), ("a", .int 5)]]
+      (.doc [("a", .int 0), ("_id", .int 1)])) [.doc [("_id", .int 0), ("k", .int 1)]] = true ∧
+    okAre (aggProject [.doc [("_id", .int 0), ("k", .int 1), ("a", .int 5)]]
+      (.doc [("_id", .bool true), ("a", .int 0)])) [.doc [("_id", .int 0), ("k", .int 1)]] = true := by
   decide +kernel
 
 /-- **find_eq_agg.** On the common domain the two separately coded projection functions — the
